@@ -401,6 +401,20 @@ func genDf1415(c *Ctx) {
 			}
 		}
 	})
+	// large counters: integer deltas must stay exact above 2^53 (no detour through float64)
+	for _, base := range []int64{1 << 53, 1 << 60, (1 << 62) + 12345, 9007199254740993} {
+		for _, incs := range [][]int64{{1, 2, 1, 5}, {1, 98, 1, 256}, {3, 3, 3}, {255, 257, 1}} {
+			for _, o := range nnOpts1415 {
+				cur := base
+				rs := []string{fmt.Sprintf("0:%s", fmtI1415(cur))}
+				for i, d := range incs {
+					cur += d
+					rs = append(rs, fmt.Sprintf("%d:%s", int64(i+1)*hourNs1415, fmtI1415(cur)))
+				}
+				c.Case(true, fmt.Sprintf("df i + %s %s | %s", o.nn, fbits1415(o.mx), strings.Join(rs, ",")))
+			}
+		}
+	}
 	// rejections
 	for _, e := range []string{"df s + 0 0000000000000000 | 0:1,60000000000:2", "df i ? 0 0000000000000000 | 0:1,60000000000:2",
 		"df f ? 1 4024000000000000 | 0:3ff0000000000000", "df b + 1 0000000000000000 | -", "df t ? 0 0000000000000000 | 0:1"} {
